@@ -1,48 +1,51 @@
-(* RrtProofs.v — what geometric::RRT reports, for every stream of samples and goal-bias draws and every collaborator:
-   the tree only contains validated motions hanging off start states, the reported path is a chain of such motions from a
-   start state, an exact report ends in a state the goal accepts, an approximate report ends in an added state no other
-   added state beats, with the reported difference its goal distance; nothing is reported iff nothing was ever added. *)
-From Coq Require Import List Bool Arith Lia.
-From OmplV Require Import RrtModel LedgerProofs.
+(* RrtProofs.v — what the RRT family reports, for every stream of iteration inputs and every collaborator: the tree only
+   contains motions the extension step vouches for, hanging off start states; the reported path is a chain of such motions
+   from a start state; an exact report ends in a state the goal accepts, an approximate report in an added state no other
+   added state beats, with the reported difference its goal distance; nothing is reported iff nothing was ever added.
+   Geometric RRT: the motions are the ones checkMotion accepted.  Control RRT: every motion replays — the child state is
+   what its control reaches from the parent in exactly the recorded number of steps, all of them valid. *)
+From Coq Require Import List Bool Arith ZArith Lia.
+From OmplV Require Import ControlModel ControlProofs RrtModel LedgerProofs.
 Import ListNotations.
 
-Section RrtP.
-  Variables St D : Type.
+Section TreeP.
+  Variables St D I E : Type.
   Variable dist : St -> St -> D.
   Variable dlt : D -> D -> bool.
-  Variable steer : St -> St -> St.
-  Variable mv : St -> St -> bool.
+  Variable target : I -> St.
+  Variable extend : St -> I -> option (St * E).
   Variable sat : St -> bool.
   Variable gdist : St -> D.
-  Variable goal_state : St.
   Variable dflt : St.
   Hypothesis dlt_trans : forall a b c, dlt a b = true -> dlt b c = true -> dlt a c = true.
   Hypothesis dlt_irrefl : forall a, dlt a a = false.
-  Notation node := (node St).
-  Notation nearest := (nearest St D dist dlt).
-  Notation rrt_step := (rrt_step St D dist dlt steer mv sat gdist dflt).
-  Notation rrt_loop := (rrt_loop St D dist dlt steer mv sat gdist goal_state dflt).
-  Notation linked := (consecutive (fun a b : St => mv a b = true)).
+  Variable EdgeOk : St -> E -> St -> Prop.
+  Hypothesis extend_ok : forall n i s e, extend n i = Some (s, e) -> EdgeOk n e s.
+  Notation node := (node St E).
+  Notation nearest := (nearest St D E dist dlt).
+  Notation tree_step := (tree_step St D I E dist dlt target extend sat gdist dflt).
+  Notation tree_loop := (tree_loop St D I E dist dlt target extend sat gdist dflt).
+  Notation r_tree := (r_tree St D E). Notation r_approx := (r_approx St D E). Notation r_sol := (r_sol St D E).
 
-  Lemma nearest_from_lt : forall t q j best bd, (best < j)%nat -> (nearest_from St D dist dlt t q j best bd < j + length t)%nat.
+  Lemma nearest_from_lt : forall t q j best bd, (best < j)%nat -> (nearest_from St D E dist dlt t q j best bd < j + length t)%nat.
   Proof. induction t as [|[s p] t IH]; intros q j best bd H; cbn [nearest_from length]; [lia|]. destruct (dlt (dist s q) bd); [specialize (IH q (S j) j (dist s q) ltac:(lia))|specialize (IH q (S j) best bd ltac:(lia))]; lia. Qed.
   Lemma nearest_lt tree q : tree <> [] -> (nearest tree q < length tree)%nat.
   Proof. destruct tree as [|[s p] t]; [congruence|]. intros _. cbn [RrtModel.nearest length]. pose proof (nearest_from_lt t q 1 0 (dist s q) ltac:(lia)). lia. Qed.
 
   Variable nstarts : nat.
   Variable starts : list St.
-  (* the tree: roots are the start states (the first nstarts nodes), every other node hangs off an earlier node by a validated motion *)
+  (* roots are the start states (the first nstarts nodes); every other node hangs off an earlier node by a vouched motion *)
   Definition TInv (tree : list node) : Prop :=
     (nstarts <= length tree)%nat /\
     (forall i s, nth_error tree i = Some (s, None) -> (i < nstarts)%nat /\ In s starts) /\
-    (forall i s p, nth_error tree i = Some (s, Some p) -> (nstarts <= i)%nat /\ (p < i)%nat /\ exists ps pp, nth_error tree p = Some (ps, pp) /\ mv ps s = true).
+    (forall i s p e, nth_error tree i = Some (s, Some (p, e)) -> (nstarts <= i)%nat /\ (p < i)%nat /\ exists ps pp, nth_error tree p = Some (ps, pp) /\ EdgeOk ps e s).
   Definition state_at (tree : list node) (i : nat) : St := fst (nth i tree (dflt, None)).
-  Definition AInv (s : rst St D) : Prop :=
-    let tree := r_tree St D s in
-    match r_approx St D s with
-    | None => length tree = nstarts /\ r_sol St D s = None
+  Definition AInv (s : rst St D E) : Prop :=
+    let tree := r_tree s in
+    match r_approx s with
+    | None => length tree = nstarts /\ r_sol s = None
     | Some (i, dd) => (nstarts <= i < length tree)%nat /\ dd = gdist (state_at tree i) /\
-        match r_sol St D s with
+        match r_sol s with
         | Some k => k = i /\ sat (state_at tree i) = true
         | None => sat (state_at tree i) = false /\ forall j, (nstarts <= j < length tree)%nat -> dlt (gdist (state_at tree j)) dd = false
         end
@@ -51,111 +54,210 @@ Section RrtP.
   Lemma nth_error_snoc {A} (l : list A) x i : nth_error (l ++ [x]) i = if (i <? length l)%nat then nth_error l i else if (i =? length l)%nat then Some x else None.
   Proof.
     destruct (Nat.ltb_spec i (length l)); [apply nth_error_app1; assumption|]. rewrite nth_error_app2 by lia.
-    destruct (Nat.eqb_spec i (length l)) as [->|N]; [rewrite Nat.sub_diag; reflexivity|]. destruct (i - length l)%nat eqn:E; [lia|]. cbn. destruct n; reflexivity.
+    destruct (Nat.eqb_spec i (length l)) as [->|N]; [rewrite Nat.sub_diag; reflexivity|]. destruct (i - length l)%nat eqn:E0; [lia|]. cbn. destruct n; reflexivity.
   Qed.
   Lemma state_at_snoc_old tree x j : (j < length tree)%nat -> state_at (tree ++ [x]) j = state_at tree j.
   Proof. intros H. unfold state_at. rewrite app_nth1 by exact H. reflexivity. Qed.
   Lemma state_at_snoc_new tree s p : state_at (tree ++ [(s, p)]) (length tree) = s.
   Proof. unfold state_at. rewrite app_nth2 by lia. rewrite Nat.sub_diag. reflexivity. Qed.
 
-  Lemma step_inv s r : r_tree St D s <> [] -> r_sol St D s = None -> TInv (r_tree St D s) -> AInv s -> TInv (r_tree St D (rrt_step s r)) /\ AInv (rrt_step s r) /\ r_tree St D (rrt_step s r) <> [].
+  Lemma step_inv s i : r_tree s <> [] -> r_sol s = None -> TInv (r_tree s) -> AInv s -> TInv (r_tree (tree_step s i)) /\ AInv (tree_step s i) /\ r_tree (tree_step s i) <> [].
   Proof.
-    intros Hne Hsol T A. unfold RrtModel.rrt_step. set (tree := r_tree St D s) in *. set (ni := nearest tree r). set (ns := fst (nth ni tree (dflt, None))). set (ds := steer ns r).
-    destruct (mv ns ds) eqn:Em; [|auto].
+    intros Hne Hsol T A. unfold RrtModel.tree_step. set (tree := r_tree s) in *. set (ni := nearest tree (target i)). set (ns := fst (nth ni tree (dflt, None))).
+    destruct (extend ns i) as [[ds e]|] eqn:Em; [|auto].
     assert (Hni : (ni < length tree)%nat) by (apply nearest_lt; exact Hne).
-    assert (T' : TInv (tree ++ [(ds, Some ni)])).
+    assert (T' : TInv (tree ++ [(ds, Some (ni, e))])).
     { destruct T as (T0 & T1 & T2). split; [rewrite app_length; cbn; lia|]. split.
-      - intros i x Hi. rewrite nth_error_snoc in Hi. destruct (i <? length tree)%nat; [apply (T1 i x Hi)|]. destruct (i =? length tree)%nat; discriminate.
-      - intros i x p Hi. rewrite nth_error_snoc in Hi. destruct (Nat.ltb_spec i (length tree)) as [L|L].
-        + destruct (T2 i x p Hi) as (A1 & A2 & ps & pp & A3 & A4). split; [exact A1|]. split; [exact A2|]. exists ps, pp. split; [rewrite nth_error_app1 by lia; exact A3|exact A4].
-        + destruct (Nat.eqb_spec i (length tree)) as [->|N]; [|discriminate]. injection Hi as <- <-. split; [exact T0|]. split; [exact Hni|].
+      - intros k x Hk. rewrite nth_error_snoc in Hk. destruct (k <? length tree)%nat; [apply (T1 k x Hk)|]. destruct (k =? length tree)%nat; discriminate.
+      - intros k x p e0 Hk. rewrite nth_error_snoc in Hk. destruct (Nat.ltb_spec k (length tree)) as [L|L].
+        + destruct (T2 k x p e0 Hk) as (A1 & A2 & ps & pp & A3 & A4). split; [exact A1|]. split; [exact A2|]. exists ps, pp. split; [rewrite nth_error_app1 by lia; exact A3|exact A4].
+        + destruct (Nat.eqb_spec k (length tree)) as [->|N]; [|discriminate]. injection Hk as <- <- <-. split; [exact T0|]. split; [exact Hni|].
           destruct (nth_error tree ni) as [[ps pp]|] eqn:En; [|apply nth_error_None in En; lia]. exists ps, pp. split; [rewrite nth_error_app1 by lia; exact En|].
-          unfold ns in Em. rewrite (nth_error_nth tree ni (dflt, None) En) in Em. exact Em. }
-    assert (Hne' : tree ++ [(ds, Some ni)] <> []) by (destruct tree; discriminate).
+          apply (extend_ok ps i ds e). unfold ns in Em. erewrite nth_error_nth in Em by exact En. exact Em. }
+    assert (Hne' : tree ++ [(ds, Some (ni, e))] <> []) by (destruct tree; discriminate).
     assert (T0 : (nstarts <= length tree)%nat) by apply T.
     unfold AInv in A. fold tree in A. rewrite Hsol in A.
     destruct (sat ds) eqn:Es.
-    - split; [exact T'|]. split; [|exact Hne']. unfold AInv. cbn [r_tree r_approx r_sol]. rewrite app_length. cbn [length]. rewrite state_at_snoc_new. split; [lia|]. split; [reflexivity|]. split; [reflexivity|exact Es].
-    - destruct (r_approx St D s) as [[bi bd]|] eqn:Ea.
+    - split; [exact T'|]. split; [|exact Hne']. unfold AInv. cbn [RrtModel.r_tree RrtModel.r_approx RrtModel.r_sol]. rewrite app_length. cbn [length]. rewrite state_at_snoc_new. split; [lia|]. split; [reflexivity|]. split; [reflexivity|exact Es].
+    - destruct (r_approx s) as [[bi bd]|] eqn:Ea.
       + destruct A as (A1 & A2 & A3 & A4). destruct (dlt (gdist ds) bd) eqn:El.
-        * split; [exact T'|]. split; [|exact Hne']. unfold AInv. cbn [r_tree r_approx r_sol]. rewrite app_length. cbn [length]. rewrite state_at_snoc_new. split; [lia|]. split; [reflexivity|]. split; [exact Es|].
+        * split; [exact T'|]. split; [|exact Hne']. unfold AInv. cbn [RrtModel.r_tree RrtModel.r_approx RrtModel.r_sol]. rewrite app_length. cbn [length]. rewrite state_at_snoc_new. split; [lia|]. split; [reflexivity|]. split; [exact Es|].
           intros j Hj. destruct (Nat.eq_dec j (length tree)) as [->|N]; [rewrite state_at_snoc_new; apply dlt_irrefl|]. rewrite state_at_snoc_old by lia.
           destruct (dlt (gdist (state_at tree j)) (gdist ds)) eqn:Ej; [|reflexivity]. pose proof (A4 j ltac:(lia)) as C. rewrite (dlt_trans _ _ _ Ej El) in C. discriminate.
-        * split; [exact T'|]. split; [|exact Hne']. unfold AInv. cbn [r_tree r_approx r_sol]. rewrite app_length. cbn [length]. rewrite state_at_snoc_old by lia. split; [lia|]. split; [exact A2|]. split; [exact A3|].
+        * split; [exact T'|]. split; [|exact Hne']. unfold AInv. cbn [RrtModel.r_tree RrtModel.r_approx RrtModel.r_sol]. rewrite app_length. cbn [length]. rewrite state_at_snoc_old by lia. split; [lia|]. split; [exact A2|]. split; [exact A3|].
           intros j Hj. destruct (Nat.eq_dec j (length tree)) as [->|N]; [rewrite state_at_snoc_new; exact El|]. rewrite state_at_snoc_old by lia. apply A4. lia.
-      + destruct A as (A1 & _). split; [exact T'|]. split; [|exact Hne']. unfold AInv. cbn [r_tree r_approx r_sol]. rewrite app_length. cbn [length]. rewrite state_at_snoc_new. split; [lia|]. split; [reflexivity|]. split; [exact Es|].
+      + destruct A as (A1 & _). split; [exact T'|]. split; [|exact Hne']. unfold AInv. cbn [RrtModel.r_tree RrtModel.r_approx RrtModel.r_sol]. rewrite app_length. cbn [length]. rewrite state_at_snoc_new. split; [lia|]. split; [reflexivity|]. split; [exact Es|].
         intros j Hj. assert (j = length tree) by lia. subst j. rewrite state_at_snoc_new. apply dlt_irrefl.
   Qed.
-
-  Lemma step_extends s r : exists ext, r_tree St D (rrt_step s r) = r_tree St D s ++ ext.
+  Lemma step_extends s i : exists ext, r_tree (tree_step s i) = r_tree s ++ ext.
   Proof.
-    unfold RrtModel.rrt_step. destruct (mv _ _); [|exists []; rewrite app_nil_r; reflexivity].
-    destruct (sat _); [eexists; reflexivity|]. destruct (r_approx St D s) as [[bi bd]|]; [destruct (dlt _ bd)|]; eexists; reflexivity.
+    unfold RrtModel.tree_step. destruct (extend _ i) as [[ds e]|]; [|exists []; rewrite app_nil_r; reflexivity].
+    destruct (sat _); [eexists; reflexivity|]. destruct (r_approx s) as [[bi bd]|]; [destruct (dlt _ bd)|]; eexists; reflexivity.
   Qed.
-  Lemma loop_inv : forall hits samples s, r_tree St D s <> [] -> TInv (r_tree St D s) -> AInv s ->
-    TInv (r_tree St D (rrt_loop s hits samples)) /\ AInv (rrt_loop s hits samples) /\ exists ext, r_tree St D (rrt_loop s hits samples) = r_tree St D s ++ ext.
+  Lemma loop_inv : forall ins s, r_tree s <> [] -> TInv (r_tree s) -> AInv s ->
+    TInv (r_tree (tree_loop s ins)) /\ AInv (tree_loop s ins) /\ exists ext, r_tree (tree_loop s ins) = r_tree s ++ ext.
   Proof.
-    induction hits as [|h hs IH]; intros samples s Hne T A; cbn [RrtModel.rrt_loop].
-    - destruct (r_sol St D s); (split; [exact T|split; [exact A|exists []; rewrite app_nil_r; reflexivity]]).
-    - destruct (r_sol St D s) eqn:Es; [split; [exact T|split; [exact A|exists []; rewrite app_nil_r; reflexivity]]|].
-      destruct h.
-      + destruct (step_inv s goal_state Hne Es T A) as (T' & A' & N'). destruct (IH samples _ N' T' A') as (X & Y & (e2 & Z)). destruct (step_extends s goal_state) as (e1 & E1).
-        split; [exact X|]. split; [exact Y|]. exists (e1 ++ e2). rewrite Z, E1, app_assoc. reflexivity.
-      + destruct (step_inv s (hd dflt samples) Hne Es T A) as (T' & A' & N'). destruct (IH (tl samples) _ N' T' A') as (X & Y & (e2 & Z)). destruct (step_extends s (hd dflt samples)) as (e1 & E1).
-        split; [exact X|]. split; [exact Y|]. exists (e1 ++ e2). rewrite Z, E1, app_assoc. reflexivity.
+    induction ins as [|i t IH]; intros s Hne T A; cbn [RrtModel.tree_loop].
+    - destruct (r_sol s); (split; [exact T|split; [exact A|exists []; rewrite app_nil_r; reflexivity]]).
+    - destruct (r_sol s) eqn:Es; [split; [exact T|split; [exact A|exists []; rewrite app_nil_r; reflexivity]]|].
+      destruct (step_inv s i Hne Es T A) as (T' & A' & N'). destruct (IH _ N' T' A') as (X & Y & (e2 & Z0)). destruct (step_extends s i) as (e1 & E1).
+      split; [exact X|]. split; [exact Y|]. exists (e1 ++ e2). rewrite Z0, E1, app_assoc. reflexivity.
   Qed.
 
-  Lemma consecutive_snoc : forall (l : list St) s, l <> [] -> linked l -> mv (last l dflt) s = true -> linked (l ++ [s]).
+  (* a reported path: the first entry is a start state without a label, every later entry's label vouches for the motion from the previous state *)
+  Fixpoint pathOk (l : list (option E * St)) : Prop :=
+    match l with
+    | [] => True
+    | [_] => True
+    | (_, a) :: (((oe, b) :: _) as t) => (match oe with Some e => EdgeOk a e b | None => False end) /\ pathOk t
+    end.
+  Lemma pathOk_snoc : forall (l : list (option E * St)) e s, l <> [] -> pathOk l -> EdgeOk (snd (last l (None, dflt))) e s -> pathOk (l ++ [(Some e, s)]).
   Proof.
-    induction l as [|a t IH]; intros s Hn Hl Hm; [congruence|]. destruct t as [|b t'].
+    induction l as [|[oa a] t IH]; intros e s Hn Hl Hm; [congruence|]. destruct t as [|[ob b] t'].
     - cbn in *. auto.
-    - change (linked (a :: b :: (t' ++ [s]))). destruct Hl as (Hab & Hr). split; [exact Hab|]. apply (IH s); [discriminate|exact Hr|exact Hm].
+    - change (pathOk ((oa, a) :: (ob, b) :: (t' ++ [(Some e, s)]))). destruct Hl as (Hab & Hr). split; [exact Hab|]. apply (IH e s); [discriminate|exact Hr|exact Hm].
   Qed.
   Lemma chain_spec tree : TInv tree -> forall fuel i s p, (i < fuel)%nat -> nth_error tree i = Some (s, p) ->
-    chain St fuel tree i <> [] /\ last (chain St fuel tree i) dflt = s /\ In (hd dflt (chain St fuel tree i)) starts /\ linked (chain St fuel tree i).
+    let c := chain St E fuel tree i in
+    c <> [] /\ snd (last c (None, dflt)) = s /\ (exists s0, hd (None, dflt) c = (None, s0) /\ In s0 starts) /\ pathOk c.
   Proof.
-    intros (T0 & T1 & T2). induction fuel as [|f IH]; intros i s p Hi En; [lia|]. cbn [chain]. rewrite En. destruct p as [pi|].
-    - destruct (T2 i s pi En) as (_ & Hp & ps & pp & Ep & Em). destruct (IH pi ps pp ltac:(lia) Ep) as (C1 & C2 & C3 & C4).
-      split; [destruct (chain St f tree pi); discriminate|]. split; [apply last_last|]. split; [destruct (chain St f tree pi); [congruence|exact C3]|].
-      apply consecutive_snoc; [exact C1|exact C4|rewrite C2; exact Em].
-    - destruct (T1 i s En) as (_ & Hin). cbn. split; [discriminate|]. split; [reflexivity|]. split; [exact Hin|exact I].
+    intros (T0 & T1 & T2). induction fuel as [|f IH]; intros i s p Hi En; [lia|]. cbn [chain]. rewrite En. destruct p as [[pi e]|].
+    - destruct (T2 i s pi e En) as (_ & Hp & ps & pp & Ep & Em). destruct (IH pi ps pp ltac:(lia) Ep) as (C1 & C2 & C3 & C4). cbn zeta.
+      split; [destruct (chain St E f tree pi); discriminate|]. split; [rewrite last_last; reflexivity|]. split; [destruct (chain St E f tree pi); [congruence|exact C3]|].
+      apply pathOk_snoc; [exact C1|exact C4|rewrite C2; exact Em].
+    - destruct (T1 i s En) as (_ & Hin). cbn. split; [discriminate|]. split; [reflexivity|]. split; [exists s; auto|exact Logic.I].
   Qed.
-End RrtP.
+End TreeP.
 
-(* what solve() reports *)
-Theorem rrt_solve_spec : forall (St D : Type) dist (dlt : D -> D -> bool) steer mv sat gdist goal_state (dflt : St),
+(* what solve() reports, for the shared loop *)
+Theorem tree_solve_spec : forall (St D I E : Type) dist (dlt : D -> D -> bool) (target : I -> St) extend sat gdist (dflt : St) (EdgeOk : St -> E -> St -> Prop),
   (forall a b c, dlt a b = true -> dlt b c = true -> dlt a c = true) -> (forall a, dlt a a = false) ->
-  forall starts hits samples, starts <> [] ->
-  let tree := fst (rrt_solve St D dist dlt steer mv sat gdist goal_state dflt starts hits samples) in
-  TInv St mv (length starts) starts tree /\
-  match snd (rrt_solve St D dist dlt steer mv sat gdist goal_state dflt starts hits samples) with
+  (forall n i s e, extend n i = Some (s, e) -> EdgeOk n e s) ->
+  forall starts ins, starts <> [] ->
+  let tree := fst (tree_solve St D I E dist dlt target extend sat gdist dflt starts ins) in
+  TInv St E EdgeOk (length starts) starts tree /\
+  match snd (tree_solve St D I E dist dlt target extend sat gdist dflt starts ins) with
   | Some (path, approx, dd) =>
-      path <> [] /\ In (hd dflt path) starts /\ consecutive (fun a b => mv a b = true) path /\ dd = gdist (last path dflt) /\
-      (exists i, (length starts <= i < length tree)%nat /\ last path dflt = state_at St dflt tree i) /\
-      (if approx then sat (last path dflt) = false /\ forall j, (length starts <= j < length tree)%nat -> dlt (gdist (state_at St dflt tree j)) dd = false
-       else sat (last path dflt) = true)
+      path <> [] /\ (exists s0, hd (None, dflt) path = (None, s0) /\ In s0 starts) /\ pathOk St E EdgeOk path /\ dd = gdist (snd (last path (None, dflt))) /\
+      (exists i, (length starts <= i < length tree)%nat /\ snd (last path (None, dflt)) = state_at St E dflt tree i) /\
+      (if approx then sat (snd (last path (None, dflt))) = false /\ forall j, (length starts <= j < length tree)%nat -> dlt (gdist (state_at St E dflt tree j)) dd = false
+       else sat (snd (last path (None, dflt))) = true)
   | None => tree = map (fun x => (x, None)) starts
   end.
 Proof.
-  intros St D dist dlt steer mv sat gdist goal_state dflt Htr Hir starts hits samples Hs. unfold rrt_solve. destruct starts as [|s0 st]; [congruence|]. set (starts := s0 :: st) in *.
-  set (init := mkR St D (map (fun x => (x, None)) starts) None None).
-  assert (T0 : TInv St mv (length starts) starts (r_tree St D init)).
+  intros St D I E dist dlt target extend sat gdist dflt EdgeOk Htr Hir Hex starts ins Hs. unfold tree_solve. destruct starts as [|s0 st]; [congruence|]. set (starts := s0 :: st) in *.
+  set (init := mkR St D E (map (fun x => (x, None)) starts) None None).
+  assert (T0 : TInv St E EdgeOk (length starts) starts (r_tree St D E init)).
   { cbn [r_tree init]. split; [rewrite map_length; lia|]. split.
-    - intros i s Hi. rewrite nth_error_map in Hi. destruct (nth_error starts i) eqn:E; [|discriminate]. cbn in Hi. injection Hi as <-. split; [apply nth_error_Some; congruence|eapply nth_error_In; exact E].
-    - intros i s p Hi. rewrite nth_error_map in Hi. destruct (nth_error starts i); discriminate. }
-  assert (A0 : AInv St D dlt sat gdist dflt (length starts) init) by (unfold AInv; cbn [r_tree r_approx r_sol init]; rewrite map_length; auto).
-  assert (N0 : r_tree St D init <> []) by (cbn; discriminate).
-  destruct (loop_inv St D dist dlt steer mv sat gdist goal_state dflt Htr Hir (length starts) starts hits samples init N0 T0 A0) as (T & A & (ext & E)).
-  set (fin := RrtModel.rrt_loop St D dist dlt steer mv sat gdist goal_state dflt init hits samples) in *. cbn [fst snd]. split; [exact T|].
-  unfold AInv in A. destruct (r_approx St D fin) as [[bi bd]|] eqn:Ea.
+    - intros i s Hi. rewrite nth_error_map in Hi. destruct (nth_error starts i) eqn:E0; [|discriminate]. cbn in Hi. injection Hi as <-. split; [apply nth_error_Some; congruence|eapply nth_error_In; exact E0].
+    - intros i s p e Hi. rewrite nth_error_map in Hi. destruct (nth_error starts i); discriminate. }
+  assert (A0 : AInv St D E dlt sat gdist dflt (length starts) init) by (unfold AInv; cbn [r_tree r_approx r_sol init]; rewrite map_length; auto).
+  assert (N0 : r_tree St D E init <> []) by (cbn; discriminate).
+  destruct (loop_inv St D I E dist dlt target extend sat gdist dflt Htr Hir EdgeOk Hex (length starts) starts ins init N0 T0 A0) as (T & A & (ext & E0)).
+  set (fin := RrtModel.tree_loop St D I E dist dlt target extend sat gdist dflt init ins) in *. cbn [fst snd]. split; [exact T|].
+  unfold AInv in A. destruct (r_approx St D E fin) as [[bi bd]|] eqn:Ea.
   - destruct A as (A1 & A2 & A3).
-    assert (CH : forall i, (length starts <= i < length (r_tree St D fin))%nat -> let c := chain St (S (length (r_tree St D fin))) (r_tree St D fin) i in
-              c <> [] /\ last c dflt = state_at St dflt (r_tree St D fin) i /\ In (hd dflt c) starts /\ consecutive (fun a b => mv a b = true) c).
-    { intros i Hi. destruct (nth_error (r_tree St D fin) i) as [[s p]|] eqn:En; [|apply nth_error_None in En; lia].
-      destruct (chain_spec St mv dflt (length starts) starts _ T (S (length (r_tree St D fin))) i s p ltac:(lia) En) as (C1 & C2 & C3 & C4).
+    assert (CH : forall i, (length starts <= i < length (r_tree St D E fin))%nat -> let c := chain St E (S (length (r_tree St D E fin))) (r_tree St D E fin) i in
+              c <> [] /\ snd (last c (None, dflt)) = state_at St E dflt (r_tree St D E fin) i /\ (exists s1, hd (None, dflt) c = (None, s1) /\ In s1 starts) /\ pathOk St E EdgeOk c).
+    { intros i Hi. destruct (nth_error (r_tree St D E fin) i) as [[s p]|] eqn:En; [|apply nth_error_None in En; lia].
+      destruct (chain_spec St E dflt EdgeOk (length starts) starts _ T (S (length (r_tree St D E fin))) i s p ltac:(lia) En) as (C1 & C2 & C3 & C4).
       split; [exact C1|]. split; [rewrite C2; unfold state_at; erewrite nth_error_nth by exact En; reflexivity|]. split; assumption. }
-    destruct (r_sol St D fin) as [k|] eqn:Ek.
+    destruct (r_sol St D E fin) as [k|] eqn:Ek.
     + destruct A3 as (-> & A4). destruct (CH bi A1) as (C1 & C2 & C3 & C4). split; [exact C1|]. split; [exact C3|]. split; [exact C4|]. split; [rewrite C2; exact A2|]. split; [exists bi; split; [exact A1|exact C2]|]. rewrite C2. exact A4.
     + destruct A3 as (A4 & A5). destruct (CH bi A1) as (C1 & C2 & C3 & C4). split; [exact C1|]. split; [exact C3|]. split; [exact C4|]. split; [rewrite C2; exact A2|]. split; [exists bi; split; [exact A1|exact C2]|]. rewrite C2. split; [exact A4|exact A5].
-  - destruct A as (A1 & A2). rewrite A2. rewrite E in A1 |- *. cbn [r_tree init] in *. rewrite app_length, map_length in A1. assert (ext = []) by (destruct ext; [reflexivity|cbn in A1; lia]). subst ext. rewrite app_nil_r. reflexivity.
+  - destruct A as (A1 & A2). rewrite A2. rewrite E0 in A1 |- *. cbn [r_tree init] in *. rewrite app_length, map_length in A1. assert (ext = []) by (destruct ext; [reflexivity|cbn in A1; lia]). subst ext. rewrite app_nil_r. reflexivity.
 Qed.
+
+(* ---- geometric::RRT ---- *)
+Section RrtG.
+  Variables St D : Type.
+  Variable dist : St -> St -> D.
+  Variable dlt : D -> D -> bool.
+  Variable steer : St -> St -> St.
+  Variable mv : St -> St -> bool.
+  Variable sat : St -> bool.
+  Variable gdist : St -> D.
+  Variable goal_state dflt : St.
+  Hypothesis dlt_trans : forall a b c, dlt a b = true -> dlt b c = true -> dlt a c = true.
+  Hypothesis dlt_irrefl : forall a, dlt a a = false.
+  Definition gEdge (a : St) (_ : unit) (b : St) : Prop := mv a b = true.
+  Lemma rrt_extend_ok n r s e : rrt_extend St steer mv n r = Some (s, e) -> gEdge n e s.
+  Proof. unfold rrt_extend, gEdge. destruct (mv n (steer n r)) eqn:E; [|discriminate]. intros H. injection H as <- _. exact E. Qed.
+  Lemma pathOk_consecutive : forall l : list (option unit * St), pathOk St unit gEdge l -> consecutive (fun a b => mv a b = true) (map snd l).
+  Proof.
+    induction l as [|[oa a] t IH]; intros H; [exact Logic.I|]. destruct t as [|[ob b] t']; [exact Logic.I|].
+    change (consecutive (fun a b => mv a b = true) (a :: b :: map snd t')). destruct H as (H1 & H2). split; [destruct ob; [exact H1|destruct H1]|]. apply IH. exact H2.
+  Qed.
+  Lemma last_map_snd : forall (l : list (option unit * St)), l <> [] -> last (map snd l) dflt = snd (last l (None, dflt)).
+  Proof. induction l as [|a t IH]; intros H; [congruence|]. destruct t as [|b t']; [reflexivity|]. change (last (map snd (b :: t')) dflt = snd (last (b :: t') (None, dflt))). apply IH. discriminate. Qed.
+
+  Theorem rrt_solve_spec : forall starts hits samples, starts <> [] ->
+    let tree := fst (rrt_solve St D dist dlt steer mv sat gdist goal_state dflt starts hits samples) in
+    (forall i s, nth_error tree i = Some (s, None) -> (i < length starts)%nat /\ In s starts) /\
+    (forall i s p, nth_error tree i = Some (s, Some p) -> (length starts <= i)%nat /\ (p < i)%nat /\ exists ps pp, nth_error tree p = Some (ps, pp) /\ mv ps s = true) /\
+    match snd (rrt_solve St D dist dlt steer mv sat gdist goal_state dflt starts hits samples) with
+    | Some (path, approx, dd) =>
+        path <> [] /\ In (hd dflt path) starts /\ consecutive (fun a b => mv a b = true) path /\ dd = gdist (last path dflt) /\
+        (exists i, (length starts <= i < length tree)%nat /\ last path dflt = fst (nth i tree (dflt, None))) /\
+        (if approx then sat (last path dflt) = false /\ forall j, (length starts <= j < length tree)%nat -> dlt (gdist (fst (nth j tree (dflt, None)))) dd = false
+         else sat (last path dflt) = true)
+    | None => tree = map (fun x => (x, None)) starts
+    end.
+  Proof.
+    intros starts hits samples Hs. unfold rrt_solve.
+    pose proof (tree_solve_spec St D St unit dist dlt (fun r => r) (rrt_extend St steer mv) sat gdist dflt gEdge dlt_trans dlt_irrefl rrt_extend_ok starts (targets St goal_state dflt hits samples) Hs) as TS.
+    cbn zeta in TS. destruct (tree_solve St D St unit dist dlt (fun r => r) (rrt_extend St steer mv) sat gdist dflt starts (targets St goal_state dflt hits samples)) as [tree rep]. cbn [fst snd] in *.
+    destruct TS as ((T0 & T1 & T2) & R).
+    assert (NM : forall i, nth_error (map (fun n : node St unit => (fst n, option_map fst (snd n))) tree) i = option_map (fun n => (fst n, option_map fst (snd n))) (nth_error tree i)) by (intros i; apply nth_error_map).
+    assert (SA : forall j, fst (nth j (map (fun n : node St unit => (fst n, option_map fst (snd n))) tree) (dflt, None)) = state_at St unit dflt tree j).
+    { intros j. unfold state_at. change (dflt, @None nat) with ((fun n : node St unit => (fst n, option_map fst (snd n))) (dflt, None)). rewrite map_nth. reflexivity. }
+    split; [|split].
+    - intros i s Hi. rewrite NM in Hi. destruct (nth_error tree i) as [[x [[p e]|]]|] eqn:En; cbn in Hi; try discriminate. injection Hi as <-. apply (T1 i x En).
+    - intros i s p Hi. rewrite NM in Hi. destruct (nth_error tree i) as [[x [[p0 e]|]]|] eqn:En; cbn in Hi; try discriminate. injection Hi as <- <-.
+      destruct (T2 i x p0 e En) as (A1 & A2 & ps & pp & A3 & A4). split; [exact A1|]. split; [exact A2|]. exists ps, (option_map fst pp). split; [rewrite NM, A3; reflexivity|exact A4].
+    - destruct rep as [[[path approx] dd]|].
+      + destruct R as (R1 & (s0 & R2 & R2') & R3 & R4 & (i & R5 & R5') & R6). rewrite map_length.
+        split; [destruct path; [congruence|discriminate]|]. split; [destruct path as [|a t]; [congruence|]; cbn in R2 |- *; rewrite R2; exact R2'|].
+        split; [apply pathOk_consecutive; exact R3|]. rewrite (last_map_snd path R1). split; [exact R4|]. split; [exists i; split; [exact R5|rewrite SA; exact R5']|].
+        destruct approx; [destruct R6 as (R6 & R7); split; [exact R6|intros j Hj; rewrite SA; apply R7; exact Hj]|exact R6].
+      + rewrite R, map_map. reflexivity.
+  Qed.
+End RrtG.
+
+(* ---- control::RRT: every reported segment replays ---- *)
+Section RrtC.
+  Variables St C : Type.
+  Variable stepf : C -> St -> St.
+  Variable valid : St -> bool.
+  Variable dist : St -> St -> Z.
+  Variable sat : St -> bool.
+  Variable gdist : St -> Z.
+  Variable dflt : St.
+  Variable minDur : nat.
+  (* the motion (control c for k steps) from a to b replays: at least the minimum duration, b is what c reaches from a in exactly k steps, all k steps valid *)
+  Definition cEdge (a : St) (e : C * nat) (b : St) : Prop :=
+    (minDur <= snd e)%nat /\ b = iter St C stepf (fst e) (snd e) a /\ forall j, (1 <= j <= snd e)%nat -> valid (iter St C stepf (fst e) j a) = true.
+  Lemma crrt_extend_ok n i s e : crrt_extend St C stepf valid dist minDur n i = Some (s, e) -> cEdge n e s.
+  Proof.
+    unfold crrt_extend. pose proof (best_control_spec St C stepf valid (fun x => dist x (fst i)) n (fst (snd i)) (snd (snd i))) as BS.
+    destruct (best_control St C stepf valid (fun x => dist x (fst i)) n (fst (snd i)) (snd (snd i))) as [[c k] st]. destruct BS as (_ & B2 & B3 & _).
+    destruct (Nat.leb_spec minDur k) as [L|L]; [|discriminate]. intros H. injection H as <- <-. unfold cEdge. cbn [fst snd]. auto.
+  Qed.
+  Theorem crrt_solve_spec : forall starts ins, starts <> [] ->
+    let tree := fst (crrt_solve St C stepf valid dist sat gdist dflt minDur starts ins) in
+    TInv St (C * nat) cEdge (length starts) starts tree /\
+    match snd (crrt_solve St C stepf valid dist sat gdist dflt minDur starts ins) with
+    | Some (path, approx, dd) =>
+        path <> [] /\ (exists s0, hd (None, dflt) path = (None, s0) /\ In s0 starts) /\ pathOk St (C * nat) cEdge path /\ dd = gdist (snd (last path (None, dflt))) /\
+        (exists i, (length starts <= i < length tree)%nat /\ snd (last path (None, dflt)) = state_at St (C * nat) dflt tree i) /\
+        (if approx then sat (snd (last path (None, dflt))) = false /\ forall j, (length starts <= j < length tree)%nat -> (gdist (state_at St (C * nat) dflt tree j) <? dd)%Z = false
+         else sat (snd (last path (None, dflt))) = true)
+    | None => tree = map (fun x => (x, None)) starts
+    end.
+  Proof.
+    intros starts ins Hs. unfold crrt_solve.
+    apply (tree_solve_spec St Z (citer St C) (C * nat) dist Z.ltb fst (crrt_extend St C stepf valid dist minDur) sat gdist dflt cEdge); [| |apply crrt_extend_ok|exact Hs].
+    - intros a b c H1 H2. apply Z.ltb_lt in H1, H2. apply Z.ltb_lt. lia.
+    - intros a. apply Z.ltb_irrefl.
+  Qed.
+End RrtC.
